@@ -55,3 +55,87 @@ Proof. vm_compute. reflexivity. Qed.
 
 Lemma tag_value_roundtrip : forall v, unescape (escape v) = v.
 Proof. apply escape_unescape_table. exact table_ok_current. Qed.
+
+(* ---------------------------------------------------------------- *)
+(* Totality of parsing *)
+
+Definition time_valueless (tg : tags) : bool :=
+  match dict_get time_key tg with Some None => true | _ => false end.
+
+Definition norm_lf (s : str) : str := if endswith1 LF s then s else s ++ [LF].
+
+(* the decidable domain on which parsing only ever reports MalformedIrcMsg:
+   the tag section carries no `time` tag without a value *)
+Definition parse_dom (s : str) : bool :=
+  match split_tags (norm_lf s) with
+  | Ok (tg, _) => negb (time_valueless tg)
+  | Raise _ => true
+  end.
+
+Lemma parse_head_exn vt tg args e :
+  parse_head vt tg args = Raise e ->
+  e = IndexError \/ e = ValueError \/ (e = TypeError /\ time_valueless tg = true).
+Proof.
+  unfold parse_head, time_valueless.
+  destruct args as [|a0 rest]; [intro H; inversion H; auto|].
+  destruct a0 as [|c a0']; [intro H; inversion H; auto|].
+  destruct (N.eqb c COLON).
+  - destruct rest as [|cmd rest']; cbn [bind]; [intro H; inversion H; auto|].
+    destruct (dict_get time_key tg) as [[v|]|]; [destruct (vt v)| |]; intro H; inversion H; auto.
+  - cbn [bind].
+    destruct (dict_get time_key tg) as [[v|]|]; [destruct (vt v)| |]; intro H; inversion H; auto.
+Qed.
+
+Lemma split_tags_exn s e : split_tags s = Raise e -> e = IndexError \/ e = ValueError.
+Proof.
+  unfold split_tags. destruct s as [|c s']; [intro H; inversion H; auto|].
+  destruct (N.eqb c AT); [|discriminate].
+  destruct (split1 [SP] (c :: s')) as [[st rest]|]; [discriminate|]. intro H; inversion H; auto.
+Qed.
+
+Lemma catches_current :
+  existsb (exn_eqb IndexError) gen.T05.PARSE_CATCHES = true /\
+  existsb (exn_eqb ValueError) gen.T05.PARSE_CATCHES = true.
+Proof. split; vm_compute; reflexivity. Qed.
+
+Lemma parse_total_on_domain vt s :
+  parse_dom s = true ->
+  (exists m, parse vt s = Ok m) \/ parse vt s = Raise MalformedIrcMsg.
+Proof.
+  intro Hdom. destruct catches_current as [Hi Hv].
+  unfold parse. destruct s as [|c0 s0]; [right; reflexivity|].
+  set (s := c0 :: s0) in *.
+  destruct (parse_inner vt s) as [m|e] eqn:Ep; [left; eauto|right].
+  assert (He : e = IndexError \/ e = ValueError).
+  { unfold parse_inner in Ep. unfold parse_dom, norm_lf in Hdom.
+    destruct (split_tags (if endswith1 LF s then s else s ++ [LF])) as [[tg rest]|e'] eqn:Es.
+    - cbn [bind fst snd] in Ep. apply parse_head_exn in Ep as [H|[H|[_ H]]]; auto.
+      rewrite H in Hdom. discriminate.
+    - cbn [bind] in Ep. inversion Ep; subst. eapply split_tags_exn; eauto. }
+  destruct He as [He|He]; subst e; [rewrite Hi|rewrite Hv]; reflexivity.
+Qed.
+
+(* the pinned code violates totality outside that domain: "@time :x PING y" *)
+Definition witness_typeerror : str :=
+  [64; 116; 105; 109; 101; 32; 58; 120; 32; 80; 73; 78; 71; 32; 121].
+
+Lemma parse_total_refuted vt :
+  parse_dom witness_typeerror = false /\ parse vt witness_typeerror = Raise TypeError.
+Proof. split; vm_compute; reflexivity. Qed.
+
+(* nothing but MalformedIrcMsg or that TypeError ever escapes *)
+Lemma parse_exn_classes vt s e :
+  parse vt s = Raise e -> e = MalformedIrcMsg \/ (e = TypeError /\ parse_dom s = false).
+Proof.
+  intro H. destruct (parse_dom s) eqn:Hd.
+  - destruct (parse_total_on_domain vt s Hd) as [[m Hm]|Hm]; rewrite Hm in H; inversion H; auto.
+  - unfold parse in H. destruct s as [|c0 s0]; [inversion H; auto|].
+    destruct (parse_inner vt (c0 :: s0)) as [m|e'] eqn:Ep; [discriminate|].
+    destruct (existsb (exn_eqb e') gen.T05.PARSE_CATCHES) eqn:Ec; inversion H; subst; auto.
+    right. split; [|reflexivity].
+    destruct catches_current as [Hi Hv].
+    unfold parse_inner in Ep.
+    destruct (split_tags (if endswith1 LF (c0 :: s0) then c0 :: s0 else (c0 :: s0) ++ [LF])) as [[tg rest]|e''] eqn:Es.
+    + cbn [bind fst snd] in Ep. apply parse_head_exn in Ep as [Hx|[Hx|[Hx _]]]; subst; congruence.
+    + cbn [bind] in Ep. inversion Ep; subst. apply split_tags_exn in Es as [Hx|Hx]; subst; congruence.
+Qed.
